@@ -6,10 +6,12 @@ package main
 import (
 	"bytes"
 	"crypto/sha256"
+	"encoding/json"
 	"fmt"
 	"golang.org/x/sys/unix"
 	"io/fs"
 	"os"
+	"os/exec"
 	"path/filepath"
 	"sort"
 	"strings"
@@ -19,7 +21,38 @@ import (
 	specs "tags.cncf.io/container-device-interface/specs-go"
 )
 
-func init() { register("C16", checkC16) }
+func init() {
+	register("C16", checkC16)
+	registerChild("c16cwd", childC16Cwd)
+}
+
+// childC16Cwd: in a process of its own (the working directory is process wide), the
+// last configured directory is the working directory itself, spelled in several ways.
+func childC16Cwd(args []string) int {
+	must(os.Chdir(args[0]))
+	must(os.MkdirAll("etc", 0o755))
+	out := map[string]string{}
+	for _, last := range []string{".", "./", "./etc/..", "etc/../."} {
+		name := "cwd-test-" + sanitize(last) + ".yaml"
+		cache, _ := cdi.NewCache(cdi.WithSpecDirs("etc", last), cdi.WithAutoRefresh(false))
+		spec := &specs.Spec{Version: "0.6.0", Kind: "cwd.org/dev", Devices: []specs.Device{{Name: "d", ContainerEdits: specs.ContainerEdits{Env: []string{"A=1"}}}}}
+		res := ""
+		if err := cache.WriteSpec(spec, name); err != nil {
+			res = "WriteSpec: " + err.Error()
+		} else if _, err := os.Stat(filepath.Join(args[0], name)); err != nil {
+			res = "no file in the working directory after WriteSpec: " + err.Error()
+		} else if cache.Refresh(); cache.GetDevice("cwd.org/dev=d") == nil {
+			res = "the device does not resolve after WriteSpec and Refresh"
+		} else if err := cache.RemoveSpec(name); err != nil {
+			res = "RemoveSpec: " + err.Error()
+		} else if _, err := os.Stat(filepath.Join(args[0], name)); err == nil {
+			res = "the file is still there after RemoveSpec"
+		}
+		out[last] = res
+	}
+	fmt.Println(jsonStr(out))
+	return 0
+}
 
 // treeSnapshot maps every path below root to "type mode size sha256".
 func treeSnapshot(root string) map[string]string {
@@ -78,6 +111,26 @@ func checkC16(c *Ctx) {
 	trap := filepath.Join(c.Scratch, "package-defaults")
 	must(os.MkdirAll(filepath.Join(trap, "etc"), 0o755))
 	cdi.DefaultSpecDirs = []string{filepath.Join(trap, "etc"), filepath.Join(trap, "run")}
+	// the last directory is the working directory (a child process each)
+	exe, _ := os.Executable()
+	c.RunCases("cwd", c.pick(2, 8), 2, func(cs *Case) {
+		root := filepath.Join(c.Scratch, sanitize(cs.Name))
+		must(os.MkdirAll(root, 0o755))
+		defer os.RemoveAll(root)
+		outb, err := exec.Command(exe, "child-c16cwd", root).Output()
+		res := map[string]string{}
+		if err != nil || json.Unmarshal(bytes.TrimSpace(outb), &res) != nil || len(res) == 0 {
+			c.Inconclusive("cwd-child")
+			return
+		}
+		for last, problem := range res {
+			c.Count("writes_into_the_working_directory", 1)
+			if problem != "" {
+				cs.Violation("write-wrong-place", map[string]string{"last_dir": last}, fmt.Sprintf("last configured directory %q (the working directory): %s", last, problem), nil)
+				return
+			}
+		}
+	})
 	c.RunCases("gen", c.pick(800, 30000), 0, func(cs *Case) { c16Case(cs, false) })
 	c.RunCases("auto", c.pick(80, 1500), 4, func(cs *Case) { c16Case(cs, true) })
 	c.Floor("id_with_slash", 8)
@@ -272,6 +325,15 @@ func c16Case(cs *Case, auto bool) {
 			must(os.WriteFile(expected, refBytes[:len(refBytes)/2], 0o644))
 		}
 		c.Count("replaces_existing_file", 1)
+	}
+	if chance(r, 20) && !strings.HasPrefix(lastShape, "missing") {
+		// another Spec's file whose name differs from the one written only in its
+		// extension (.json / .yaml): somebody else's file
+		sib := strings.TrimSuffix(expected, filepath.Ext(expected)) + map[string]string{".yaml": ".json", ".json": ".yaml"}[filepath.Ext(expected)]
+		if _, err := os.Lstat(sib); err != nil {
+			must(os.WriteFile(sib, []byte(`{"cdiVersion":"0.6.0","kind":"sibling.org/dev","devices":[{"name":"s","containerEdits":{"env":["S=1"]}}]}`), 0o644))
+			c.Count("writes_next_to_a_sibling_in_the_other_encoding", 1)
+		}
 	}
 	var cache *cdi.Cache
 	var ac *autoCache
